@@ -1,6 +1,7 @@
 import LoraVerif.Model.Device
 import LoraVerif.Model.History
 import LoraVerif.Lemmas.ExceptLemmas
+import LoraVerif.Lemmas.RefineNb
 /-!
 # C06 — uplink frame counters never repeat within a session
 
@@ -1194,6 +1195,366 @@ theorem send_after_expiry_reuses {σ} (g : Rng σ) (m : MacState) (s : Session) 
   obtain ⟨out, _, ho, hf, _⟩ := macSend_fcnt g m s hm data port conf rs rs' o m' h
   exact ⟨out, ho, by rw [hf, hx]⟩
 
+/-! ## the device front-ends: strictly increasing counters for every script (by refinement)
+
+The history theorem is transferred to the two front-end models through the refinement theorems of
+`Lemmas/Refine*.lean`:
+* async (`asyncOps`: `send` / `join` under ANY script of radio answers, both classes, ABP, setters):
+  the session is simulated by the extended history `runC` of its calls (`asyncOps_sim`); the events
+  of `Model/History.lean` go through `step_rel` unchanged, the Class C event shapes (frames handled
+  by `handle_rxc` in the middle of the procedure) through the same per-function counter lemmas
+  (`cycleC_fcnt`); `runC_fcnt_strict` is `history_fcnt_strict` on extended histories, and
+  `async_fcnt_strict` reads it on what the application and the radio see (`FcntStrictObs`);
+* non-blocking (`nbRun`): by the invariant of `nbStep_inv`; the frame handed to the radio at the
+  start of an exchange is checked against `step_rel` on the event "the radio refuses the
+  transmission", the end of the exchange against `step_rel` on the exchange's own event. -/
+
+/-- the `Ev` an extended event is read as by `FcntStrict` (only `isJoin` matters) -/
+def projEv : EvC → Ev
+  | .base e => e
+  | .uplinkC _ data fport conf _ _ rx1 _ rx2 => .uplink data fport conf none rx1 rx2 0 0
+  | .joinC _ _ _ rx1 _ rx2 => .joinOtaa none rx1 rx2 0 0
+
+theorem rxcs_fcnt_mono (m : MacState) (s : Session) (hm : joinedWith m s) (mp : Nat) (cs : List (RxView × Int))
+    (os : List RxOut) (fin : Bool) (m' : MacState) (h : rxcs m mp cs = .ok (os, fin, m')) :
+    ∃ s', joinedWith m' s' ∧ s.fcntUp ≤ s'.fcntUp := by
+  induction cs generalizing m s os fin with
+  | nil =>
+    simp only [rxcs, pure, Except.pure, Except.ok.injEq, Prod.mk.injEq] at h
+    obtain ⟨_, _, rfl⟩ := h
+    exact ⟨s, hm, Nat.le_refl _⟩
+  | cons c rest ih =>
+    obtain ⟨v, snr⟩ := c
+    unfold rxcs at h
+    obtain ⟨⟨o, m1⟩, hrx, hk⟩ := Except.bind_eq_ok h
+    obtain ⟨s1, hj1, hle1, _⟩ := macHandleRx_fcnt_mono m s hm v mp snr true o m1 hrx
+    cases o with
+    | none =>
+      simp only [pure, Except.pure, Except.ok.injEq, Prod.mk.injEq] at hk
+      obtain ⟨_, _, rfl⟩ := hk
+      exact ⟨s1, hj1, hle1⟩
+    | some o =>
+      simp only at hk
+      obtain ⟨⟨os2, fin2, m2⟩, hrest, hk2⟩ := Except.bind_eq_ok hk
+      simp only [pure, Except.pure, Except.ok.injEq, Prod.mk.injEq] at hk2
+      obtain ⟨_, _, rfl⟩ := hk2
+      obtain ⟨s2, hj2, hle2⟩ := ih m1 s1 hj1 os2 fin2 hrest
+      exact ⟨s2, hj2, Nat.le_trans hle1 hle2⟩
+
+theorem between_fcnt_mono (cc : Bool) (m : MacState) (s : Session) (hm : joinedWith m s) (cs : List (RxView × Int))
+    (os : List RxOut) (fin : Bool) (m' : MacState) (h : between cc m cs = .ok (os, fin, m')) :
+    ∃ s', joinedWith m' s' ∧ s.fcntUp ≤ s'.fcntUp := by
+  unfold between at h
+  cases cc with
+  | true =>
+    simp only [if_true] at h
+    obtain ⟨rf, _, h⟩ := Except.bind_eq_ok h
+    exact rxcs_fcnt_mono m s hm _ cs os fin m' h
+  | false =>
+    simp only [Bool.false_eq_true, if_false, pure, Except.pure, Except.ok.injEq, Prod.mk.injEq] at h
+    obtain ⟨_, _, rfl⟩ := h
+    exact ⟨s, hm, Nat.le_refl _⟩
+
+/-- a response of a window: the counter has advanced past the frame's, or the session is expired -/
+def RespAdv (s s' : Session) (o : RxOut) : Prop :=
+  (o.resp ≠ .sessionExpired ∧ s.fcntUp + 1 ≤ s'.fcntUp) ∨ o.resp = .sessionExpired
+
+theorem winC_fcnt (cc : Bool) (m : MacState) (s : Session) (hm : joinedWith m s) (cs : List (RxView × Int))
+    (f : Option (RxView × Int)) (mp : Nat) (eb ea : Bool) (r : Option (Option RxOut)) (hd : List RxOut) (m' : MacState)
+    (h : winC cc m cs f mp eb ea = .ok (r, hd, m')) :
+    ∃ s', joinedWith m' s' ∧ s.fcntUp ≤ s'.fcntUp ∧ ∀ o, r = some (some o) → RespAdv s s' o := by
+  unfold winC at h
+  obtain ⟨⟨os, fin, m1⟩, hb, hk⟩ := Except.bind_eq_ok h
+  obtain ⟨s1, hj1, hle1⟩ := between_fcnt_mono cc m s hm cs os fin m1 hb
+  simp only at hk
+  split at hk
+  · simp only [pure, Except.pure, Except.ok.injEq, Prod.mk.injEq] at hk
+    obtain ⟨rfl, _, rfl⟩ := hk
+    exact ⟨s1, hj1, hle1, fun o e => by cases e⟩
+  · obtain ⟨⟨o, m2⟩, hw, hk2⟩ := Except.bind_eq_ok hk
+    obtain ⟨_, _, hk3⟩ := Except.bind_eq_ok hk2
+    obtain ⟨s2, hj2, hc2⟩ := window_fcnt m1 s1 hj1 f mp o m2 hw
+    have hle2 : s1.fcntUp ≤ s2.fcntUp := by
+      rcases hc2 with ⟨_, e⟩ | ⟨_, _, _, e, _⟩ | ⟨_, _, _, e, _⟩ <;> omega
+    simp only at hk3
+    split at hk3
+    · simp only [pure, Except.pure, Except.ok.injEq, Prod.mk.injEq] at hk3
+      obtain ⟨rfl, _, rfl⟩ := hk3
+      exact ⟨s2, hj2, Nat.le_trans hle1 hle2, fun o e => by cases e⟩
+    · simp only [pure, Except.pure, Except.ok.injEq, Prod.mk.injEq] at hk3
+      obtain ⟨rfl, _, rfl⟩ := hk3
+      refine ⟨s2, hj2, Nat.le_trans hle1 hle2, ?_⟩
+      intro o' e
+      simp only [Option.some.injEq] at e
+      subst e
+      rcases hc2 with ⟨e0, _⟩ | ⟨out, e0, hne, e1, _⟩ | ⟨out, e0, he, _, _⟩
+      · cases e0
+      · cases e0; exact Or.inl ⟨hne, by omega⟩
+      · cases e0; exact Or.inr he
+
+theorem cycleC_fcnt (cc : Bool) (m : MacState) (s : Session) (hm : joinedWith m s) (fault : Option FaultPos)
+    (c1 c2 : List (RxView × Int)) (rx1 rx2 : Option (RxView × Int)) (mp1 mp2 : Nat) (fin : ProcEnd) (heard : List RxOut)
+    (m' : MacState) (h : cycleC cc m fault c1 rx1 c2 rx2 mp1 mp2 = .ok (fin, heard, m')) :
+    ∃ s', joinedWith m' s' ∧ s.fcntUp ≤ s'.fcntUp ∧ ∀ o, fin = .resp o → RespAdv s s' o := by
+  unfold cycleC at h
+  split at h
+  · simp only [pure, Except.pure, Except.ok.injEq, Prod.mk.injEq] at h
+    obtain ⟨rfl, _, rfl⟩ := h
+    exact ⟨s, hm, Nat.le_refl _, fun o e => by cases e⟩
+  · obtain ⟨⟨r1, h1, m1⟩, hw1, hk⟩ := Except.bind_eq_ok h
+    obtain ⟨s1, hj1, hle1, hr1⟩ := winC_fcnt cc m s hm c1 rx1 mp1 _ _ r1 h1 m1 hw1
+    cases r1 with
+    | none =>
+      simp only [pure, Except.pure, Except.ok.injEq, Prod.mk.injEq] at hk
+      obtain ⟨rfl, _, rfl⟩ := hk
+      exact ⟨s1, hj1, hle1, fun o e => by cases e⟩
+    | some o1 =>
+      cases o1 with
+      | some o =>
+        simp only [pure, Except.pure, Except.ok.injEq, Prod.mk.injEq] at hk
+        obtain ⟨rfl, _, rfl⟩ := hk
+        exact ⟨s1, hj1, hle1, fun o' e => by cases e; exact hr1 o rfl⟩
+      | none =>
+        simp only at hk
+        obtain ⟨⟨r2, h2, m2⟩, hw2, hk2⟩ := Except.bind_eq_ok hk
+        obtain ⟨s2, hj2, hle2, hr2⟩ := winC_fcnt cc m1 s1 hj1 c2 rx2 mp2 _ _ r2 h2 m2 hw2
+        cases r2 with
+        | none =>
+          simp only [pure, Except.pure, Except.ok.injEq, Prod.mk.injEq] at hk2
+          obtain ⟨rfl, _, rfl⟩ := hk2
+          exact ⟨s2, hj2, Nat.le_trans hle1 hle2, fun o e => by cases e⟩
+        | some o2 =>
+          cases o2 with
+          | some o =>
+            simp only [pure, Except.pure, Except.ok.injEq, Prod.mk.injEq] at hk2
+            obtain ⟨rfl, _, rfl⟩ := hk2
+            refine ⟨s2, hj2, Nat.le_trans hle1 hle2, ?_⟩
+            intro o' e
+            cases e
+            rcases hr2 o rfl with ⟨a, b⟩ | a
+            · exact Or.inl ⟨a, by omega⟩
+            · exact Or.inr a
+          | none =>
+            simp only [pure, Except.pure, Except.ok.injEq, Prod.mk.injEq] at hk2
+            obtain ⟨rfl, _, rfl⟩ := hk2
+            exact ⟨s2, hj2, Nat.le_trans hle1 hle2, fun o e => by cases e⟩
+
+/-- one step of an extended history, seen from the counter bound (`step_rel` on extended events) -/
+theorem stepC_rel {σ} (g : Rng σ) (m m' : MacState) (rs rs' : σ) (ev : EvC) (oc : OutC) (b : Option Nat) (hr : Rel m b)
+    (h : stepC g (m, rs) ev = .ok ((m', rs'), oc)) : stepPost (projEv ev) b m' oc.out := by
+  have rel0 : ∀ m'', Rel m'' (some 0) := fun m'' lo e s _ => by cases e; exact Nat.zero_le _
+  cases ev with
+  | base e =>
+    simp only [stepC] at h
+    obtain ⟨⟨ms1, o⟩, hs, hk⟩ := Except.bind_eq_ok h
+    simp only [pure, Except.pure, Except.ok.injEq, Prod.mk.injEq] at hk
+    obtain ⟨rfl, rfl⟩ := hk
+    exact step_rel g m m' rs rs' e o b hr hs
+  | joinC cc fault c1 rx1 c2 rx2 =>
+    simp only [stepC] at h
+    obtain ⟨⟨o, m1, s1⟩, _, hk⟩ := Except.bind_eq_ok h
+    obtain ⟨⟨fin, heard, m2⟩, _, hk2⟩ := Except.bind_eq_ok hk
+    cases fin <;> simp only [pure, Except.pure, Except.ok.injEq, Prod.mk.injEq] at hk2 <;>
+      obtain ⟨⟨rfl, _⟩, rfl⟩ := hk2 <;> exact rel0 _
+  | uplinkC cc data fport conf fault c1 rx1 c2 rx2 =>
+    simp only [stepC] at h
+    obtain ⟨⟨o, m1, rs1⟩, hsend, hk⟩ := Except.bind_eq_ok h
+    by_cases hjn : ∃ s, m.st = .joined s
+    · obtain ⟨s, hst⟩ := hjn
+      obtain ⟨out1, s1, rfl, hf, _, hj1, hf1⟩ := macSend_fcnt g m s hst data fport conf rs rs1 o m1 hsend
+      simp only at hk
+      obtain ⟨⟨fin, heard, m2⟩, hcy, hk2⟩ := Except.bind_eq_ok hk
+      obtain ⟨s2, hj2, hle2, hresp⟩ := cycleC_fcnt cc m1 s1 hj1 fault c1 c2 rx1 rx2 _ _ fin heard m2 hcy
+      have hfr : ∀ lo, b = some lo → lo ≤ out1.frame.fcnt := fun lo e => by rw [hf]; exact hr lo e s hst
+      cases fin with
+      | resp ro =>
+        simp only [pure, Except.pure, Except.ok.injEq, Prod.mk.injEq] at hk2
+        obtain ⟨⟨rfl, _⟩, rfl⟩ := hk2
+        refine ⟨hfr, ?_⟩
+        rcases hresp ro rfl with ⟨hne, hadv⟩ | he
+        · have : expiredResp (some ro.resp) = false := by
+            unfold expiredResp
+            simp only [beq_eq_false_iff_ne, ne_eq, Option.some.injEq]
+            exact hne
+          simp only [this, Bool.false_eq_true, if_false]
+          exact rel_of_joined hj2 (by omega)
+        · simp only [he, expiredResp, beq_self_eq_true, if_true]
+          intro lo e; cases e
+      | complete =>
+        simp only [pure, Except.pure, Except.ok.injEq, Prod.mk.injEq] at hk2
+        obtain ⟨⟨rfl, _⟩, rfl⟩ := hk2
+        refine ⟨hfr, ?_⟩
+        obtain ⟨s3, hj3, hc3⟩ := macRx2Complete_fcnt m2 s2 hj2
+        rcases hc3 with ⟨_, e3, hne⟩ | ⟨_, _, he⟩
+        · have : expiredResp (some (macRx2Complete m2).1) = false := by
+            unfold expiredResp
+            simp only [beq_eq_false_iff_ne, ne_eq, Option.some.injEq]
+            exact hne
+          simp only [this, Bool.false_eq_true, if_false]
+          exact rel_of_joined hj3 (by omega)
+        · simp only [he, expiredResp, beq_self_eq_true, if_true]
+          intro lo e; cases e
+      | cut =>
+        simp only [pure, Except.pure, Except.ok.injEq, Prod.mk.injEq] at hk2
+        obtain ⟨⟨rfl, _⟩, rfl⟩ := hk2
+        refine ⟨hfr, ?_⟩
+        obtain ⟨s3, hj3, hc3⟩ := fault_fcnt_resp m2 s2 hj2
+        rcases hc3 with ⟨e3, hx⟩ | ⟨e3, hx⟩
+        · simp only [hx, Bool.false_eq_true, if_false, expiredResp]
+          have : ((none : Option Response) == some Response.sessionExpired) = false := rfl
+          simp only [this, Bool.false_eq_true, if_false]
+          exact rel_of_joined hj3 (by omega)
+        · simp only [hx, if_true, expiredResp, beq_self_eq_true]
+          intro lo e; cases e
+    · have hnj : ∀ s, m.st ≠ .joined s := fun s e => hjn ⟨s, e⟩
+      obtain ⟨rfl, rfl⟩ := macSend_notJoined g m hnj data fport conf rs rs1 o m1 hsend
+      simp only [pure, Except.pure, Except.ok.injEq, Prod.mk.injEq] at hk
+      obtain ⟨⟨rfl, _⟩, rfl⟩ := hk
+      simp only [stepPost, projEv, isJoin, Bool.false_eq_true, if_false]
+      exact hr
+
+theorem runC_fcnt_strict {σ} (g : Rng σ) (m : MacState) (rs : σ) (evs : List EvC) (ms' : MacState × σ) (ocs : List OutC)
+    (b : Option Nat) (hr : Rel m b) (h : runC g (m, rs) evs = .ok (ms', ocs)) :
+    FcntStrict b ((evs.map projEv).zip (ocs.map (fun oc => oc.out))) := by
+  induction evs generalizing m rs b ocs with
+  | nil => simp [FcntStrict]
+  | cons ev rest ih =>
+    unfold runC at h
+    obtain ⟨⟨⟨m1, rs1⟩, o⟩, hstep, h⟩ := Except.bind_eq_ok h
+    obtain ⟨⟨ms2, os⟩, hrun, h⟩ := Except.bind_eq_ok h
+    simp only [pure, Except.pure, Except.ok.injEq, Prod.mk.injEq] at h
+    obtain ⟨rfl, rfl⟩ := h
+    have hs := stepC_rel g m m1 rs rs1 ev o b hr hstep
+    simp only [List.map_cons, List.zip_cons_cons]
+    unfold FcntStrict
+    cases hout : o.out with
+    | up so resp dl =>
+      rw [hout] at hs
+      simp only [stepPost] at hs ⊢
+      exact ⟨hs.1, ih m1 rs1 os _ hs.2 hrun⟩
+    | done => rw [hout] at hs; simp only [stepPost] at hs ⊢; split <;> rename_i hj <;> simp only [hj, if_true, if_false, Bool.false_eq_true] at hs <;> exact ih m1 rs1 os _ hs hrun
+    | notJoined => rw [hout] at hs; simp only [stepPost] at hs ⊢; split <;> rename_i hj <;> simp only [hj, if_true, if_false, Bool.false_eq_true] at hs <;> exact ih m1 rs1 os _ hs hrun
+    | join jo resp => rw [hout] at hs; simp only [stepPost] at hs ⊢; split <;> rename_i hj <;> simp only [hj, if_true, if_false, Bool.false_eq_true] at hs <;> exact ih m1 rs1 os _ hs hrun
+    | rxc rf ro => rw [hout] at hs; simp only [stepPost] at hs ⊢; split <;> rename_i hj <;> simp only [hj, if_true, if_false, Bool.false_eq_true] at hs <;> exact ih m1 rs1 os _ hs hrun
+
+/-- a call that (re)starts activation -/
+def _root_.Model.AsyncOp.isJoin : AsyncOp → Bool
+  | .join _ | .abp _ _ _ => true
+  | _ => false
+
+/-- **`FcntStrict` on what the application and the radio see of an async session**: each data frame
+handed to the radio (`OpObs.frame`, see `sentFrame`) carries a counter at or above the bound; after a
+frame with counter `n` the bound is `n + 1`, until a call returns `SessionExpired` (no claim after that);
+`join` / ABP activation start a new session at 0 -/
+def FcntStrictObs : Option Nat → List (AsyncOp × OpObs) → Prop
+  | _, [] => True
+  | b, (op, ob) :: rest =>
+    match ob.frame with
+    | some f =>
+      (∀ lo, b = some lo → lo ≤ f.fcnt) ∧
+        FcntStrictObs (if ob.res == some (.ok .sessionExpired) then none else some (f.fcnt + 1)) rest
+    | none => if op.isJoin then FcntStrictObs (some 0) rest else FcntStrictObs b rest
+
+theorem fcntStrict_obs (cfg : DevCfg) (ops : List AsyncOp) (obs : List OpObs) (ocs : List OutC) (b : Option Nat)
+    (hrel : AllRel ObsRel obs ocs) (hlen : ops.length = obs.length)
+    (h : FcntStrict b (((ops.map (abstractOp cfg)).map projEv).zip (ocs.map (fun oc => oc.out)))) :
+    FcntStrictObs b (ops.zip obs) := by
+  induction hrel generalizing ops b with
+  | nil =>
+    cases ops with
+    | nil => trivial
+    | cons _ _ => simp at hlen
+  | @cons ob oc obs' ocs' hab _ ih =>
+    cases ops with
+    | nil => simp at hlen
+    | cons op rest =>
+      simp only [List.length_cons, Nat.add_right_cancel_iff] at hlen
+      simp only [List.map_cons, List.zip_cons_cons] at h ⊢
+      unfold FcntStrict at h
+      unfold FcntStrictObs
+      obtain ⟨hres, hframe⟩ := hab
+      have hjoin : isJoin (projEv (abstractOp cfg op)) = op.isJoin := by
+        cases op with
+        | send d p c script => simp only [abstractOp, abstractSendC]; split <;> rfl
+        | join script => simp only [abstractOp, abstractJoinC]; split <;> rfl
+        | abp a n k => rfl
+        | setAdr on => rfl
+        | setDr dr => rfl
+      cases hout : oc.out with
+      | up so resp dl =>
+        rw [hout] at h hframe hres
+        simp only [Out.frame?] at hframe
+        simp only [hframe]
+        simp only at h
+        refine ⟨h.1, ?_⟩
+        have hexp : (ob.res == some (DevResult.ok Response.sessionExpired)) = expiredResp resp := by
+          cases hr : ob.res with
+          | none =>
+            rw [hr] at hres
+            simp only at hres
+            cases hres
+          | some res =>
+            rw [hr] at hres
+            simp only [RespRel] at hres
+            subst hres
+            cases res with
+            | ok r =>
+              by_cases hx : r = Response.sessionExpired
+              · subst hx; rfl
+              · have h1 : (some (DevResult.ok r) == some (DevResult.ok Response.sessionExpired)) = false := by
+                  simp only [beq_eq_false_iff_ne, ne_eq, Option.some.injEq, DevResult.ok.injEq]; exact hx
+                have h2 : expiredResp (DevResult.ok r).resp? = false := by
+                  simp only [DevResult.resp?, expiredResp, beq_eq_false_iff_ne, ne_eq, Option.some.injEq]; exact hx
+                rw [h1, h2]
+            | errRadio => simp [DevResult.resp?, expiredResp]
+            | errMac => simp [DevResult.resp?, expiredResp]
+        rw [hexp]
+        exact ih rest _ hlen h.2
+      | done =>
+        rw [hout] at h hframe; simp only [Out.frame?] at hframe; simp only [hframe, hjoin] at h ⊢
+        split <;> rename_i hj <;> simp only [hj, if_true, if_false, Bool.false_eq_true] at h <;> exact ih rest _ hlen h
+      | notJoined =>
+        rw [hout] at h hframe; simp only [Out.frame?] at hframe; simp only [hframe, hjoin] at h ⊢
+        split <;> rename_i hj <;> simp only [hj, if_true, if_false, Bool.false_eq_true] at h <;> exact ih rest _ hlen h
+      | join jo resp =>
+        rw [hout] at h hframe; simp only [Out.frame?] at hframe; simp only [hframe, hjoin] at h ⊢
+        split <;> rename_i hj <;> simp only [hj, if_true, if_false, Bool.false_eq_true] at h <;> exact ih rest _ hlen h
+      | rxc rf ro =>
+        rw [hout] at h hframe; simp only [Out.frame?] at hframe; simp only [hframe, hjoin] at h ⊢
+        split <;> rename_i hj <;> simp only [hj, if_true, if_false, Bool.false_eq_true] at h <;> exact ih rest _ hlen h
+
+theorem allRel_length {α β : Type} {R : α → β → Prop} {l1 : List α} {l2 : List β} (h : AllRel R l1 l2) :
+    l1.length = l2.length := by
+  induction h with
+  | nil => rfl
+  | cons _ _ ih => simp [ih]
+
+theorem asyncOps_length {σ} (g : Rng σ) (cfg : DevCfg) (d : DevRun) (rs : σ) (ops : List AsyncOp) (obs : List OpObs)
+    (d' : DevRun) (rs' : σ) (h : asyncOps g cfg d rs ops = .ok (obs, d', rs')) : ops.length = obs.length := by
+  induction ops generalizing d rs obs with
+  | nil =>
+    simp only [asyncOps, pure, Except.pure, Except.ok.injEq, Prod.mk.injEq] at h
+    obtain ⟨rfl, _⟩ := h; rfl
+  | cons op rest ih =>
+    unfold asyncOps at h
+    obtain ⟨⟨ob, d1, rs1⟩, _, hk⟩ := Except.bind_eq_ok h
+    obtain ⟨⟨obs1, d2, rs2⟩, hrest, hk2⟩ := Except.bind_eq_ok hk
+    simp only [pure, Except.pure, Except.ok.injEq, Prod.mk.injEq] at hk2
+    obtain ⟨rfl, rfl, rfl⟩ := hk2
+    simp [ih d1 rs1 obs1 hrest]
+
+/-- **the frames the async front-end hands to the radio carry strictly increasing counters within a
+session, for every script.**  Any device state, either class, any list of application calls, each
+`send` / `join` under ANY script of radio answers (errors at any call, frames in any window, Class C
+frames between the windows): every data frame handed to the radio carries a counter strictly above the
+previous one of the same session, until a call returns `SessionExpired`; `join` / ABP start a new
+session.  Obtained from the refinement (`asyncOps_sim`) and the history theorem (`runC_fcnt_strict`). -/
+theorem async_fcnt_strict {σ} (g : Rng σ) (cfg : DevCfg) (d : DevRun) (rs : σ) (ops : List AsyncOp) (obs : List OpObs)
+    (d' : DevRun) (rs' : σ) (h : asyncOps g cfg d rs ops = .ok (obs, d', rs')) : FcntStrictObs (some 0) (ops.zip obs) := by
+  obtain ⟨⟨ms', ocs⟩, hrun, hrel⟩ := (asyncOps_sim g cfg d rs ops).elim_ok h
+  have hs := runC_fcnt_strict g d.m rs _ ms' ocs (some 0) (fun _ e _ _ => by cases e; exact Nat.zero_le _) hrun
+  exact fcntStrict_obs cfg ops obs ocs (some 0) hrel.obs (asyncOps_length g cfg d rs ops obs d' rs' h) hs
+
 /-! non-vacuity -/
 def cfg0 : Config :=
   { dataRate := 0, rx1Delay := 1000, txPower := none, rx1DrOffset := 0, rx2DataRate := none, rx2Frequency := none, adrEnabled := true }
@@ -1237,3 +1598,5 @@ end C06
 #print axioms C06.window_fcnt
 #print axioms C06.cycle_fcnt
 #print axioms C06.fault_fcnt
+#print axioms C06.runC_fcnt_strict
+#print axioms C06.async_fcnt_strict
